@@ -102,6 +102,35 @@ def check_registered_symbols(ctx: Ctx, rule: str):
 
 
 
+def check_missing_table(ctx: Ctx, rule: str):
+    """The generator's table of missing variables is the model's own (`ode.missing_variables`) on every path of
+    CodeGenerator.__init__: a table that is filtered or renumbered there (e.g. under remove_unused) gives rhs and the schemes
+    another slot layout than ODE.missing_variables and the other half's missing_values use."""
+    from sa import av as _av
+
+    from . import util
+
+    init = ctx.sm.func("codegen/base.py", "CodeGenerator.__init__")
+    A = util.AV(ctx)
+    _v, env = A.returned(init)
+    mv = env.get("self._missing_variables")
+    key = init.key("missing-table")
+    if mv is None:
+        stores = [n for n in ast.walk(init.node) if isinstance(n, ast.Attribute) and isinstance(n.ctx, ast.Store) and n.attr == "_missing_variables"]
+        if not stores:
+            ctx.undecided(rule, key, "CodeGenerator.__init__ does not set self._missing_variables; where the generator's table comes from is not understood", init.where())
+            return
+    if mv is None or _av.has_unk(mv):
+        ctx.undecided(rule, key, "what CodeGenerator.__init__ stores as the table of missing variables is not understood", init.where())
+        return
+    p0 = [p for p in init.params if p != "self"][0]
+    want = [("sym", f"{p0}.missing_variables"), ("attr", ("sym", p0), "missing_variables"), ("sym", "self.ode.missing_variables")]
+    from .c03 import _branches
+
+    odd = [leaf for _c, leaf in _branches(mv) if leaf not in want]
+    ctx.check(not odd, rule, key, "self._missing_variables = ode.missing_variables", f"CodeGenerator.__init__ stores `{_av.show(odd[0])[:120] if odd else ''}` as the table of missing variables on some path, not the model's own `ode.missing_variables`: the slots rhs and the schemes read differ from the ones the model and the producing half number", init.where())
+
+
 def run(ctx: Ctx):
     sm = ctx.sm
     ctx.assume("numerical agreement of the sub-models with the full model is NOT decided")
@@ -137,6 +166,7 @@ def run(ctx: Ctx):
         okb = src is not None and "time" in extra and extra["time"] in (env_.get("self.t"), ("call", "sympy.Symbol", (_av.C("t"),), ()))
         ctx.check(okb, "R13.a", oi.key("symbols"), "ODE.symbols = every atom of the components + time", f"ODE.__init__ stores symbols as {_av.show(symv)[:100]}, not the symbols gathered from the components plus `time`", oi.where())
     check_registered_symbols(ctx, "R13.a")
+    check_missing_table(ctx, "R13.a")
 
     ctx.rule("R13.b", "sibling agreement: rhs, monitor_values, missing_values and scheme all unpack the missing variables, append the formal under the same condition and hand the block to the template; both python templates splice it before the body", floor=16)
 
@@ -243,6 +273,12 @@ def run(ctx: Ctx):
     hybrid_table(ctx, "R13.f", declare=False)
     check_get_code(ctx, "R13.f", "cli/gotran2py.py")
 
+    ctx.rule("R13.g", "what the two halves of a split exchange is addressed by name through index functions that agree with the functions that fill the arrays: the monitor / state / parameter slot families (monitor_index numbers every assignment monitor_values emits, whatever remove_unused says), and missing_values returns as many values as were requested", floor=10)
+    from .c03 import return_arity
+    from .c04 import slot_families
+
+    slot_families(ctx, "R13.g", floor=False)
+    return_arity(ctx, "R13.g")
     ctx.rule("R13.e", "the jax method template returns the slots _values_0.._values_{n-1} in slot order (missing_values stores its slots in emission order, not slot order)", floor=5)
     from .c03 import jax_template
 
